@@ -67,7 +67,9 @@ def observe(args):
     orig_params = {k: v.clone() for k, v in m.state_dict().items()}
     for st in settings:
         o = {}
-        G.set_alpha(d, sn, st['alphas'], torch)
+        if st.get('frozen') is not None:
+            sn.train_selection = not st['frozen']     # frozen selection: alpha.requires_grad = False
+        G.set_alpha(d, sn, st['alphas'], torch, st.get('write', 'copy'))
         if st['how'] == 'update':
             sn.update_softmax_options(hard=True)
         elif st['how'] == 'attr':
@@ -136,8 +138,11 @@ def observe(args):
         if st.get('export_first'):      # export before any forward pass with these coefficients
             e, ye = do_export()
         try:
-            with torch.no_grad():
-                y = sn(x)
+            if st.get('grad'):
+                y = sn(x).detach()        # evaluation with autograd enabled
+            else:
+                with torch.no_grad():
+                    y = sn(x)
             o['theta'] = [[float(v) for v in combs[b].theta_alpha] for b in range(len(combs))]
             o['hard_exc'] = None
         except Exception as e_:  # noqa
@@ -182,9 +187,18 @@ def settings_for(rng, d, quick):
         tie = rng.random() < 0.12
         alphas = [G.gen_alpha(rng, k, w, tie=tie) for k, w in zip(nbr, win)]
         sts.append({'alphas': alphas, 'how': rng.choice(['update', 'attr']), 'temp': rng.choice([None, None, 0.05, 0.5, 5.0, 20.0]),
-                    'export_train': rng.random() < 0.35, 'export_first': rng.random() < 0.25})
+                    'export_train': rng.random() < 0.35, 'export_first': rng.random() < 0.25,
+                    'write': rng.choice(G.WRITE_METHODS), 'grad': rng.random() < 0.3, 'frozen': rng.random() < 0.4})
     if rng.random() < 0.5:   # the initial uniform coefficients (all equal: winner 0)
         sts.append({'alphas': [[1.0 / k] * k for k in nbr], 'how': 'update', 'temp': None})
+    if all(b['hard'] for b in d['blocks']):
+        # hard selection requested at CONSTRUCTION (SuperNetModule(..., hard_softmax=True), with or without gumbel_softmax): nothing
+        # is called on the wrapper before these cases, so they come first
+        pre = []
+        for win in rng.sample(combos, min(len(combos), 4)):
+            pre.append({'alphas': [G.gen_alpha(rng, k, w) for k, w in zip(nbr, win)], 'how': 'ctor', 'temp': None, 'ctor_hard': True,
+                        'write': rng.choice(G.WRITE_METHODS), 'grad': rng.random() < 0.3, 'export_first': rng.random() < 0.3})
+        sts = pre + sts
     return sts, small
 
 
@@ -200,7 +214,8 @@ def neartie_settings(rng, d):
         runner = 'later' if (temp is not None and j % 4 == 3) else 'earlier'
         alphas = [G.gen_alpha_neartie(rng, k, gap, runner if k >= 2 else 'earlier')[0] for k in nbr]
         sts.append({'alphas': alphas, 'how': 'ctor' if temp is None else rng.choice(['update', 'attr']), 'temp': temp,
-                    'temp_how': rng.choice(['update', 'attr']), 'export_first': (j % 2 == 0), 'export_train': (j % 3 == 0), 'neartie': {'gap': gap, 'runner': runner}})
+                    'temp_how': rng.choice(['update', 'attr']), 'export_first': (j % 2 == 0), 'export_train': (j % 3 == 0),
+                    'write': rng.choice(G.WRITE_METHODS), 'grad': (j % 5 == 0), 'frozen': (j % 4 == 1), 'neartie': {'gap': gap, 'runner': runner}})
     return sts
 
 
@@ -266,6 +281,8 @@ def run(ctx):
                 'coefficients = distinct multiples of 1/16 with the wanted winner on top, 12% with a tie for the maximum, plus the uniform initial ones; hard selection set through '
                 'update_softmax_options(hard=True) or the hard_softmax attribute, temperatures {1,.05,.5,5,20}; ALL winner combinations when every block has <= 4 branches, otherwise '
                 'sampled combinations that always include winners 1, 10, 11 and every branch ending in a functional op; one case = (network, coefficients); '
+                'coefficients written by no_grad copy_ / .data = / .data.copy_ / .data[i] = / a new nn.Parameter, AFTER the forward pass of the previous case on the same wrapper; hard forward under no_grad or with autograd, train_selection frozen or not; '
+                'every third network is BUILT with hard_softmax=True on every block (with and without gumbel_softmax) and evaluated before any option call; '
                 'BatchNorm2d among the fixed layers and inside branches; export() called in eval and (35%) in train mode, before or after the hard forward, with a bitwise fingerprint of the whole SuperNet state_dict around it and the reference output taken before; '
                 'NEAR-TIE stream: networks built with hard_softmax=True, per block the unique raw maximum 1/2/4 float32 ulps or 1e-6 above an earlier- (or later-) indexed runner-up, temperatures {.05,1,20,100} through '
                 'update_softmax_options or the attribute (T=1 untouched after construction first), export before / after the forward pass; there the exported branch must be the raw arg-max (hard forward not compared); '
@@ -279,13 +296,18 @@ def run(ctx):
     # corpus winners are per-block lists: expand (a single block each)
     n_small, n_large = (14, 12) if ctx.quick else (60, 50)
     exhaustive_nets = 0
+    def ctor_hard(d, i):
+        if i % 3 == 0:      # every third network: every block built with hard_softmax=True (gumbel_softmax as drawn: both occur)
+            for blk in d['blocks']:
+                blk['hard'] = True
+        return d
     for i in range(n_small):
-        d = G.gen_desc(rng, small=True)
+        d = ctor_hard(G.gen_desc(rng, small=True), i)
         sts, small = settings_for(rng, d, ctx.quick)
         nets.append((d, sts, 'small'))
         exhaustive_nets += 1
     for i in range(n_large):
-        d = G.gen_desc(rng, small=False)
+        d = ctor_hard(G.gen_desc(rng, small=False), i)
         sts, small = settings_for(rng, d, ctx.quick)
         nets.append((d, sts, 'small' if small else 'large'))
     # near-tie stream: dedicated networks built with hard_softmax=True in the constructor
@@ -305,7 +327,7 @@ def run(ctx):
         if res['import_exc']:
             fails.append(('supernet-import-raises', {'desc': strip(d), 'what': res['import_exc'], 'tag': tag}))
             continue
-        for st, o in zip(sts, res['obs']):
+        for si, (st, o) in enumerate(zip(sts, res['obs'])):
             win = [max(range(len(a)), key=lambda i: (a[i], -i)) for a in st['alphas']]
             nbr = [len(b['branches']) for b in d['blocks']]
             kinds = [d['blocks'][b]['branches'][win[b]]['kind'] for b in range(len(nbr))]
@@ -320,6 +342,13 @@ def run(ctx):
                 ctx.dist['a LOSING branch has a functional op / method call before one of its layers'] += 1
             if any(br.get('ops') and br['ops'][-1] == ['f', 10] for b in range(len(nbr)) for br in d['blocks'][b]['branches']):
                 ctx.dist['a branch with a residual connection'] += 1
+            ctx.dist['coefficients written by %s' % st.get('write', 'copy')] += 1
+            if st.get('grad'):
+                ctx.dist['hard forward with autograd enabled'] += 1
+            if st.get('frozen'):
+                ctx.dist['train_selection frozen'] += 1
+            if st.get('ctor_hard'):
+                ctx.dist['hard selection requested only at construction (gumbel blocks: %s)' % sorted({b['gumbel'] for b in d['blocks']})] += 1
             if st.get('export_train'):
                 ctx.dist['export() called in train mode'] += 1
                 if 'bn' in d['types']:
@@ -334,7 +363,10 @@ def run(ctx):
             if len([1 for it in d['chain'] if it[0] == 'block']) > len(nbr):
                 ctx.dist['block used twice'] += 1
             assert o['maxabs'] < 2 ** 50, 'integer exactness lost'
+            nf = len(fails)
             check_obs(d, st, o, fails, tag)
+            for _, inf in fails[nf:]:
+                inf['history'] = sts[:si]      # earlier cases on the same wrapper (their forward passes precede this one)
             flat.append((ni, d, st, o))
     ctx.exhaustive = False
     ctx.extra['exhaustive_part'] = 'every winner combination of the %d generated networks whose blocks have <= 4 branches (and of the corpus networks); networks and larger blocks are sampled' % exhaustive_nets
@@ -413,20 +445,22 @@ def run(ctx):
 
 def replay(r):
     """re-executes the failing (network, coefficients) on the implementation"""
-    print(json.dumps({k: v for k, v in r.items() if k not in ('desc',)}, indent=1, default=str)[:2500])
+    print(json.dumps({k: v for k, v in r.items() if k not in ('desc', 'history')}, indent=1, default=str)[:2500])
     if 'desc' not in r or 'setting' not in r:
         print('no failing input in this replay file')
         return 1
     d = G.finish_desc(dict(r['desc']))
     st = r['setting']
-    res = observe((d, [st]))
+    hist = r.get('history') or []
+    res = observe((d, hist + [st]))
     if res['import_exc']:
         print('SuperNet(...) raised', res['import_exc'])
         return 1
     fails = []
-    check_obs(d, st, res['obs'][0], fails, 'replay')
+    check_obs(d, st, res['obs'][-1], fails, 'replay')
     print('required: export() succeeds, keeps exactly the arg-max branch of every block, exported(x) == SuperNet.eval()(x) with hard selection, other layers untouched')
-    print('observed:', {k: v for k, v in res['obs'][0].items() if k not in ('seq',)})
+    print('(after replaying %d earlier cases on the same wrapper)' % len(hist))
+    print('observed:', {k: v for k, v in res['obs'][-1].items() if k not in ('seq',)})
     for key, info in fails:
         print('FAILS:', key, '-', info['what'])
     return 1 if fails else 0
